@@ -13,7 +13,7 @@ B1 == [id |-> "sirj",
 MCBases == <<B1>>
 MCMutations == {"none", "add_output_parameter", "undefined_compartment_in_transition", "undefined_parameter_in_transition", "duplicate_code_name", "duplicate_display_name", "reserved_name",
                 "junction_outflow_not_proportion", "proportion_on_ordinary_link", "source_outflow_not_number", "sink_outflow", "inflow_to_source", "self_reference", "cyclic_functions",
-                "unsupported_call", "undefined_dependency", "undefined_characteristic_component", "unnested_cascade", "unnested_cascade_later_stage", "characteristic_on_unlisted_page", "delete_transitions_sheet", "delete_parameters_sheet", "delete_format_column",
+                "unsupported_call", "undefined_dependency", "undefined_characteristic_component", "unnested_cascade", "unnested_cascade_later_stage", "characteristic_on_unlisted_page", "capitalised_units", "delete_transitions_sheet", "delete_parameters_sheet", "delete_format_column",
                 "delete_code_name_column", "blank_optional_column", "delete_optional_sheet",
                 "databook_delete_table", "databook_unit_mismatch", "databook_blank_required_values", "databook_unknown_population", "databook_delete_state_sheet"}
 ====
